@@ -148,6 +148,35 @@ m('c12-unsorted-inputs', 'C12', 'chain.py', "for n, it in sorted(self.input_task
 m('c12-ns-kept-in-input-names', 'C12', 'chain.py', "                _name = _name[len(outer_namespace) + 2 :]", "                pass")
 m('c12-dict-unsorted', 'C12', 'utils/clazz.py', "for key, val in sorted(obj.items())", "for key, val in obj.items()")
 
+# ---- C01 -----------------------------------------------------------------------------------------------
+m('c01-inputs-not-hashed', 'C01', 'chain.py', "return sha256(f'{parameter_repr}$$${input_tasks_repr}'.encode()).hexdigest()[:32]", "return sha256(f'{parameter_repr}$$$'.encode()).hexdigest()[:32]")
+m('c01-first-param-dropped', 'C01', 'parameter.py', "        for name, parameter in sorted(self._parameters.items()):\n            repr = parameter.repr", "        for name, parameter in sorted(self._parameters.items())[1:] if len(self._parameters) > 2 else sorted(self._parameters.items()):\n            repr = parameter.repr")
+m('c01-forced-ignored', 'C01,C07', 'task.py', "and self._data.exists() and not self._forced:", "and self._data.exists():")
+m('c01-first-pass-sharing', 'C01', 'chain.py', "task_registry=None if self._parameter_mode else self._task_registry)", "task_registry={} if self._parameter_mode else self._task_registry)")
+m('c01-positional-run-args', 'C01', 'task.py', "            args.append(input_tasks_arg if input_tasks_arg is not NO_VALUE else parameter_arg)\n        return args",
+  "            args.append(input_tasks_arg if input_tasks_arg is not NO_VALUE else parameter_arg)\n        return sorted(args, key=lambda a: str(type(a))) if len(args) > 2 else args")
+m('c01-context-ns-leak', 'C01', 'config.py', "                if self.namespace == namespace:", "                if self.namespace.split('::')[-1] == namespace.split('::')[-1]:")
+m('c01-load-any-key', 'C01', 'data.py', "    def exists(self) -> bool:\n        return self.path.exists()\n\n    def delete(self):\n        self.path.unlink()",
+  "    def exists(self) -> bool:\n        return self.path.exists() or any(self._base_dir.glob(f'*.{self.extension}'))\n\n    def delete(self):\n        self.path.unlink()")
+# ---- C04 -----------------------------------------------------------------------------------------------
+m('c04-has-data-via-data', 'C04', 'task.py', "        return self._data_without_value.exists()", "        return self.data.exists()")
+m('c04-eager-inputs', 'C04', 'task.py', "        if self._data and self._data.is_persisting and self._data.exists() and not self._forced:\n            self._data.load(self.data_type)",
+  "        _ = [t.value for t in self.input_tasks.values() if isinstance(t, Task)]\n        if self._data and self._data.is_persisting and self._data.exists() and not self._forced:\n            self._data.load(self.data_type)")
+# (re-loading instead of keeping the loaded value in memory runs nothing: not a C04 violation; C13 observes re-reads)
+m('c04-tasks-df-computes', 'C04', 'chain.py', "                'computed': task.has_data if task.data_path else None,", "                'computed': (task.value is not None) if task.data_path else None,")
+m('c04-run-info-computes', 'C04', 'task.py', "        data = self._data_without_value\n        return data.load_run_info()", "        data = self.data\n        return data.load_run_info()")
+m('c04-exists-needs-nonempty', 'C04', 'data.py', "    def exists(self) -> bool:\n        return self.path.exists()\n\n    def delete(self):\n        self.path.unlink()",
+  "    def exists(self) -> bool:\n        return self.path.exists() and self.path.stat().st_size > 3\n\n    def delete(self):\n        self.path.unlink()")
+# ---- C07 -----------------------------------------------------------------------------------------------
+m('c07-ancestors', 'C07', 'chain.py', "            forced_tasks |= self.dependent_tasks(task, include_self=True)", "            forced_tasks |= self.required_tasks(task, include_self=True)")
+m('c07-not-self', 'C07', 'chain.py', "            forced_tasks |= self.dependent_tasks(task, include_self=True)", "            forced_tasks |= self.dependent_tasks(task, include_self=False)")
+m('c07-delete-always', 'C07', 'task.py', "        if delete_data:\n            data = self._data_without_value", "        if True:\n            data = self._data_without_value")
+m('c07-data-kept', 'C07', 'task.py', "        self._forced = True\n        self._data = None\n        return self", "        self._forced = True\n        return self")
+m('c07-recompute-named-only', 'C07', 'chain.py', "            for task in list(forced_tasks)[::-1]:\n                _ = task.value", "            for task in [self.get_task(t) for t in tasks]:\n                _ = task.value")
+m('c07-delete-ignored', 'C07', 'chain.py', "            task.force(delete_data=delete_data)", "            task.force()")
+m('c07-last-named-only', 'C07', 'chain.py', "            forced_tasks |= self.dependent_tasks(task, include_self=True)", "            forced_tasks = self.dependent_tasks(task, include_self=True)")
+m('c07-continues-delete-raises', 'C07', 'data.py', "        shutil.rmtree(str(self.tmp_path), ignore_errors=True)", "        shutil.rmtree(str(self.tmp_path))")
+
 
 def make_scratch():
     d = Path(tempfile.mkdtemp(prefix='tcmut-'))
